@@ -9,26 +9,34 @@ EXTENDS Naturals, Sequences, FiniteSets, TLC, Json, IOUtils, SequencesExt
 
 \* ---------------------------------------------------------------- the copy loop
 CONSTANTS MaxChunk
-VARIABLES size, chunk, pos, written, nreads, lastread, phase
-cvars == <<size, chunk, pos, written, nreads, lastread, phase>>
+VARIABLES size, chunk, pos, written, nreads, lastread, phase,
+          dstlen      \* length of the destination file: it may exist before the copy (shorter, of the same size, longer)
+cvars == <<size, chunk, pos, written, nreads, lastread, phase, dstlen>>
 MinOf(a, b) == IF a < b THEN a ELSE b
 CInit == /\ chunk \in 1..MaxChunk /\ size \in 0..(2 * MaxChunk + 1)
-         /\ pos = 0 /\ written = 0 /\ nreads = 0 /\ lastread = 0 /\ phase = "read"
+         /\ pos = 0 /\ written = 0 /\ nreads = 0 /\ lastread = 0 /\ phase = "open"
+         /\ dstlen \in {0, size, size + 1}
+\* the destination is opened for writing: whatever it held is gone, whatever its size and age
+Open == /\ phase = "open"
+        /\ dstlen' = 0
+        /\ phase' = "read"
+        /\ UNCHANGED <<size, chunk, pos, written, nreads, lastread>>
 Read == /\ phase = "read"
         /\ lastread' = MinOf(chunk, size - pos)
         /\ pos' = pos + MinOf(chunk, size - pos)
         /\ nreads' = nreads + 1
         /\ phase' = IF MinOf(chunk, size - pos) = 0 THEN "done" ELSE "write"
-        /\ UNCHANGED <<size, chunk, written>>
+        /\ UNCHANGED <<size, chunk, written, dstlen>>
 Write == /\ phase = "write"
          /\ written' = written + lastread
+         /\ dstlen' = dstlen + lastread
          /\ phase' = "read"
          /\ UNCHANGED <<size, chunk, pos, nreads, lastread>>
-CNext == Read \/ Write \/ (phase = "done" /\ UNCHANGED cvars)
+CNext == Open \/ Read \/ Write \/ (phase = "done" /\ UNCHANGED cvars)
 CSpec == CInit /\ [][CNext]_cvars /\ WF_cvars(CNext)
 \* what was written is always exactly the prefix that was consumed; at the end everything, with ceil(size/chunk)+1 reads
 PrefixCopied == (phase = "read" => written = pos) /\ (phase = "write" => written + lastread = pos) /\ pos <= size
-Complete == phase = "done" => written = size /\ nreads = (size + chunk - 1) \div chunk + 1
+Complete == phase = "done" => written = size /\ dstlen = size /\ nreads = (size + chunk - 1) \div chunk + 1
 Terminates == <>(phase = "done")
 
 \* ---------------------------------------------------------------- the walk
